@@ -188,15 +188,27 @@ func (m *UnboundedSegmentedMailbox) Dequeue() *ReceiveContext {
 			atomic.AddInt64(&m.length, -1)
 			return val
 		}
+		// Only a segment whose every slot has been consumed may be left behind.
+		// enq is a snapshot: producers can fill the remaining slots and link a
+		// successor between that load and the next one, so advancing whenever
+		// next is set would skip the slots written in between.
+		if deq < segmentSize {
+			return nil
+		}
 		// current segment is drained; move to next if available
 		next := seg.next.Load()
 		if next == nil {
 			return nil
 		}
-		// recycle old head
+		// Advance past the drained head. The old segment is deliberately left
+		// intact and is not returned to segmentPool: a producer that loaded
+		// m.tail before the roll-over may still hold a pointer to it. Such a
+		// producer must keep seeing a full segment (writeIdx >= segmentSize)
+		// whose next link leads back into the live chain. Clearing next or
+		// recycling the segment here lets that producer write into a pooled or
+		// re-issued segment, or link a new segment off the retired one and
+		// swing m.tail onto a chain the consumer never reaches, losing messages.
 		m.head.Store(next)
-		seg.next.Store(nil)
-		segmentPool.Put(seg)
 		seg = next
 	}
 }
